@@ -23,6 +23,8 @@ func init() {
 			"(D6) conflict removal: the function that makes room for a new lease (rmDynamicLease) can remove more than one lease per call — a lease can conflict with one existing lease by hardware address and with another by IP address — i.e. its removal site lies in a loop over the lease list or there are at least two removal sites, and every caller registers the new lease only after it succeeded; (D7) the hostname index follows a rename: when commitLease changes a lease's hostname the old name's index entry is deleted (at most guarded by 'still points at this lease') and the new name is indexed. " +
 			"(D8) pool accounting: the pool-offset set is changed only with an offset that (*ipRange).offset reported as lying inside the range — on the ok edge of that very call — so a lease outside the dynamic range (static reservations elsewhere in the subnet) neither occupies nor frees a pool address. " +
 			"(D5, cont.) a lease found under the same hostname or address that belongs to another device always fails the validation, whatever else is true of it (expired, dynamic). " +
+			"(D5, cont. 2) a configuration is accepted only if the pool's own membership test (ipRange.contains, the one the allocator uses) excludes the gateway. " +
+			"(D2, cont.) the allocator takes candidate addresses from the range's own enumeration (ipRange.find), the one whose bounds contains() and offset() share. " +
 			"Not decided: uniqueness of addresses/clients over message histories, pool exhaustion, expiry arithmetic, restart equivalence beyond 'stored after each change'.",
 		RuleText: "Mutations are SSA stores/map updates/deletes/bitset sets on the four table fields and stores to dhcpsvc.Lease fields; obligations propagate from callee to callers until a function without module callers is reached.",
 		Assumptions: []string{
@@ -627,6 +629,66 @@ func (a *c10) validation() {
 	check("(*dhcpd.v4Server).UpdateStaticLease", []string{"(*dhcpd.v4Server).addLease", "(*dhcpd.v4Server).rmLease"}, []guardSpec{
 		{"validateStaticLease", errNil("(*dhcpd.v4Server).validateStaticLease")},
 	})
+	// the configuration is accepted only if the gateway is outside the pool by the pool's own membership test (the
+	// allocator hands out every address for which that test holds and never looks at the gateway again)
+	if cv := p.Fn("(*dhcpd.V4ServerConf).Validate"); cv != nil {
+		gOut, nOut := core.CondEdges(cv, func(at core.Atom) (bool, bool) {
+			if at.Op != token.ILLEGAL || !core.IsCallResult(at.Base, -1, "(*dhcpd.ipRange).contains") {
+				return false, false
+			}
+			call, _, _ := core.CallResult(at.Base)
+			transparent := map[string]bool{"dhcpd.ensureV4": true, "(net/netip.Addr).AsSlice": true, "(net/netip.Addr).Unmap": true}
+			for k := range core.DefaultTransparent {
+				transparent[k] = true
+			}
+			for _, o := range core.Origins(call.Common().Args[1], core.ProvOpts{Prog: p, Transparent: transparent}) {
+				if o.Kind == "field" && o.Key == "dhcpd.V4ServerConf.GatewayIP" {
+					return true, false
+				}
+			}
+			return false, false
+		})
+		offV, nsV := core.UnguardedSinks(cv, func(in ssa.Instruction) bool { return isSuccessReturn(cv, in) }, gOut)
+		r.Check(nOut > 0 && nsV > 0 && len(offV) == 0, "C10-D5", "gateway-outside-pool-by-the-pools-own-test", p.FnPos(cv),
+			"a configuration with a range is accepted only if ipRange.contains(gateway) is false",
+			"the configuration can be accepted without the pool's own membership test having excluded the gateway: an address the allocator considers part of the pool can be the gateway's, and is then leased to a client", traceOf(p, offV)...)
+	} else {
+		r.Undecided("C10-D5", "V4ServerConf.Validate", "-", "anchor not found")
+	}
+	// the allocator enumerates the pool through the range's own iterator (the one whose bounds contains() and
+	// offset() share): an address is a candidate exactly when it is in the range
+	if nx := p.Fn("(*dhcpd.v4Server).nextIP"); nx != nil {
+		nRet := 0
+		var badSrc []string
+		for _, b := range nx.Blocks {
+			if len(b.Instrs) == 0 || b == nx.Recover {
+				continue
+			}
+			ret, ok := core.AsReturn(b.Instrs[len(b.Instrs)-1])
+			if !ok || len(ret.Results) != 1 {
+				continue
+			}
+			nRet++
+			tr := map[string]bool{"(net.IP).To4": true, "(net.IP).To16": true}
+			for k := range core.DefaultTransparent {
+				tr[k] = true
+			}
+			for _, o := range core.Origins(core.Res(ret, 0), core.ProvOpts{Prog: p, Transparent: tr}) {
+				switch {
+				case o.Kind == "const":
+				case o.Kind == "call" && o.Key == "(*dhcpd.ipRange).find":
+				default:
+					badSrc = append(badSrc, o.String()+" at "+p.InstrPos(ret))
+				}
+			}
+		}
+		sort.Strings(badSrc)
+		r.Check(nRet > 0 && len(badSrc) == 0 && len(core.CallsToDeep(nx, "(*dhcpd.ipRange).find")) > 0, "C10-D2", "allocator-enumerates-the-range-itself", p.FnPos(nx),
+			"the next free address comes from the range's own enumeration of its addresses",
+			"the allocator computes candidate addresses by itself instead of taking them from the range's own enumeration: the two can disagree about the bounds (the last address is never offered, or an address outside is)", badSrc...)
+	} else {
+		r.Undecided("C10-D2", "nextIP", "-", "anchor not found")
+	}
 	// validateStaticLease: failing edges of its checks never reach `return nil`
 	vs := p.Fn("(*dhcpd.v4Server).validateStaticLease")
 	if vs == nil {
@@ -691,7 +753,7 @@ func (a *c10) validation() {
 		edges, n := core.CondEdges(vs, fs.match)
 		var starts []core.Point
 		for e := range edges {
-			starts = append(starts, core.Point{Block: e.From.Succs[e.Succ], Idx: 0})
+			starts = append(starts, core.AfterEdge(e))
 		}
 		found := false
 		if len(starts) > 0 {
@@ -736,7 +798,7 @@ func (a *c10) storePath() {
 	// on the DBStore edge, every path to return passes dbStore
 	var starts []core.Point
 	for e := range g {
-		starts = append(starts, core.Point{Block: e.From.Succs[e.Succ], Idx: 0})
+		starts = append(starts, core.AfterEdge(e))
 	}
 	found := true
 	if len(starts) > 0 {
